@@ -49,7 +49,7 @@ def cases(tier, seed):
                         out.append(dict(type="subset", kind=kind, d=d, terms=list(sub), ncomp=1 + variant * 2, b=2 + variant, n_out=1 + variant))
             for ncomp in (1, 2, 3):
                 for b in range(1, B["bmax"] + 1):
-                    for w in ("one", "scalar", "vector"):
+                    for w in ("one", "scalar", "scalar0d", "vector"):
                         out.append(dict(type="dyn", kind=kind, d=d, ncomp=ncomp, b=b, weight=w, n_out=2 if ncomp == 3 else 1))
     out.sort(key=lambda c: (c["type"] != "subset", len(c.get("terms", [])), c["b"]))
     return out
@@ -131,14 +131,17 @@ def run_case(case):
         return dict(viol=v, evals=1, nontrivial=[str(case)] if nz else [], outcomes=[f"{case['kind']}|{sorted(nz)}"], sample={"case": case, "terms_returned": td})
     # ---- dynamic term alone
     ncomp, b = case["ncomp"], case["b"]
-    w = {"one": 1.0, "scalar": 2.5, "vector": jnp.asarray([1.0, 0.5, 2.0][:ncomp])}[case["weight"]]
+    w = {"one": 1.0, "scalar": 2.5, "scalar0d": jnp.asarray(2.5), "vector": jnp.asarray([1.0, 0.5, 2.0][:ncomp])}[case["weight"]]
     loss, params, batch, (coef, expo, pts) = build(case, ["dyn"], w)
     _, td = L.jit_eval(loss, params, batch)
     val = float(td["dyn_loss"])
     exp = dyn_formula(case, coef, expo, pts, np.asarray(w))
-    n = 1
+    n = 2
     if not close(val, exp, 1e-10):
         v.append(V(site, "dynamic_term_differs_from_batch_mean_weighted_residual_mse", f"ncomp={ncomp} b={b} weight={case['weight']}: got {val} expected {exp}"))
+    val_eager = float(loss.evaluate(params, batch)[1]["dyn_loss"])  # weights are Python numbers here, traced leaves under jit
+    if not close(val_eager, exp, 1e-10):
+        v.append(V(site, "dynamic_term_differs_from_batch_mean_weighted_residual_mse(eager)", f"ncomp={ncomp} b={b} weight={case['weight']}: got {val_eager} expected {exp}"))
     for perm in itertools.permutations(range(b)):
         pb = L.make_batch(case["kind"], pts[list(perm)])
         pv = float(L.jit_eval(loss, params, pb)[1]["dyn_loss"])
